@@ -2,7 +2,7 @@
 import json
 from .. import common
 
-T_TEXT = ("name T\nversion 1.0\ntarget X8_01 (shots=10, flags=[1, 2])\n\nfloat array M =\n    {b}, 2\nfloat v = {b}\nfloat array W[1, 2] =\n    {wv}\n"
+T_TEXT = ("name T\nversion 1.0\ntarget X8_01 (shots=10, flags=[1, 2])\n\nfloat array M =\n    {b}, 2\nfloat v = {b}\nfloat array W[1, 2] =\n    {wv}\nfloat array Q =\n    3, 4\n"
           "G({a}, 2*q1) | 0\nVac | 1\nK(l=[1, 2]) | 0\nK2(W) | 1\n")
 P_TEXT = "name P\nversion 1.0\n\nint array N =\n    3, 4\nVac | 0\nH(5, 2*q0) | 1\n"
 
@@ -115,7 +115,11 @@ def run_history(case):
                 elif a["kind"] == "set_kw":
                     o.operations[i]["kwargs"]["zz"] = 7
                 elif a["kind"] == "array_elem":
-                    o.variables["M"][0][0] = -5
+                    o.variables["M" if i == 0 else "Q"][0][0] = -5
+                elif a["kind"] == "del_var":
+                    del o.variables["v"]
+                elif a["kind"] == "opt_replace":
+                    o.target["options"]["flags"][0] = -8
                 elif a["kind"] == "set_var":
                     o.variables["newvar"] = 1
                 elif a["kind"] == "rename_op":
@@ -186,7 +190,7 @@ def run(rep, tier, seed):
     rep.cov["evaluations"] = len(cases)
     rep.cov["distinct_nontrivial"] = sum(1 for c in cases if any(a["act"] in ("call", "mutate", "digraph", "match") for a in c["hist"]))
     rep.cov["rule"] = ("every sequence of %d actions (dumps, attribute reads, to_DiGraph, match_template, template calls with 2 environments creating up to "
-                       "2 instances, 8 kinds of mutation of an instance (argument list, keyword dict, array element, variable dict, operation name, target option, list inside a target option, register list of a feed-forward argument)) over a template with an argument-less operation, a feed-forward argument, a list keyword, a parameterised "
+                       "2 instances, 10 kinds of mutation of an instance (argument list, keyword dict, element of an array variable with and without parameters, variable dict (entry added / removed), operation name, target option, list inside a target option (appended / element replaced), register list of a feed-forward argument)) over a template with an argument-less operation, a feed-forward argument, a list keyword, a parameterised "
                        "array and scalar variable, and a plain program; after every action a deep digest (structure + dumps text) of every live object" % depth)
 
 
